@@ -1,6 +1,6 @@
 (* One-line renderings of values, events and run outcomes for the cases files. *)
 From Coq Require Import ZArith String Ascii List Bool PrimFloat FloatOps SpecFloat.
-From Bardolph Require Import Base.PyFloat Run.Show Gen.Codes Time.TimeSpec Time.TimePattern
+From Bardolph Require Import Base.PyFloat Run.Show Gen.Codes Time.TimeSpec Time.TimeCore
   Lang.Value Lang.Instr Lang.Loader Lang.World Lang.Machine.
 Open Scope string_scope.
 Open Scope list_scope.
